@@ -345,6 +345,7 @@ def run(chk, repo, tier):
     run_h8_h10(chk, repo)
     run_h11(chk, repo)
     run_h12(chk, repo)
+    run_h13(chk, repo)
     from rules.C05 import run_o12_o13
     run_o12_o13(chk, repo)
 
@@ -683,3 +684,49 @@ def run_h12(chk, repo):
                                       'than 100 columns / a filtered dataset (non-range index)')
     if n < 2:
         raise AnalysisError(f'H12: only {n} pandas containers found in the dataset hash')
+
+
+def run_h13(chk, repo):
+    """H13: ColumnInfo.categories is either a tuple or a mapping code -> label (ColumnInfo._canonicalize_<field> returns a
+    frozenmapping for dict input). In every to_dict / _to_dict of datainfo.py the value stored for such a field must keep the
+    labels: the attribute must not pass through a conversion that iterates a mapping's keys only (tuple, list, set, frozenset,
+    sorted applied to the attribute itself rather than to its .items())."""
+    H13 = chk.rule('H13', 'datainfo to_dict: mapping-capable fields (categories) are stored without a keys-only conversion',
+                   floor=2)
+    m = repo.module('pharmpy.model.datainfo')
+    ci = m.classes.get('ColumnInfo')
+    if ci is None:
+        raise AnalysisError('H13: ColumnInfo not found')
+    mfields = {mn[len('_canonicalize_'):] for mn, f in ci.methods.items() if mn.startswith('_canonicalize_')
+               and any(isinstance(c, ast.Call) and (dotted(c.func) or '').endswith('frozenmapping') for c in ast.walk(f.node))}
+    if not mfields:
+        raise AnalysisError('H13: no ColumnInfo._canonicalize_<field> that returns a frozenmapping')
+    KEYS_ONLY = {'tuple', 'list', 'set', 'frozenset', 'sorted'}
+    n = 0
+    for c in dict.values(m.classes):
+        for mn, f in c.methods.items():
+            if mn not in ('to_dict', '_to_dict'):
+                continue
+
+            def is_field(e):
+                return isinstance(e, ast.Attribute) and e.attr.lstrip('_') in mfields
+            if not any(is_field(e) for e in ast.walk(f.node)):
+                continue
+            # names that hold the attribute (or a conversion of it)
+            for call in [x for x in ast.walk(f.node) if isinstance(x, ast.Call)]:
+                fn = dotted(call.func) or ''
+                if fn in KEYS_ONLY and call.args and (is_field(call.args[0]) or (
+                        isinstance(call.args[0], ast.Name) and any(
+                            isinstance(a_, ast.Assign) and any(isinstance(t, ast.Name) and t.id == call.args[0].id for t in a_.targets)
+                            and is_field(a_.value) for a_ in ast.walk(f.node)))):
+                    chk.violation(H13, m.rel, f.qualname, unparse(call)[:80],
+                                  f'{fn}() of a code -> label mapping keeps the codes only: from_dict(to_dict(x)) != x and models '
+                                  f'that differ in the labels serialise (and hash) alike', line=call.lineno,
+                                  witness="a column with categories={1: 'low', 2: 'high'}: DataInfo.from_dict(di.to_dict()) != di")
+            for d in [x for x in ast.walk(f.node) if isinstance(x, ast.Dict)]:
+                for k, v in zip(d.keys, d.values):
+                    if isinstance(k, ast.Constant) and k.value in mfields:
+                        n += 1
+                        chk.instance(H13, f'{f.qualname}: {k.value!r}: {unparse(v)[:50]}')
+    if n == 0:
+        raise AnalysisError(f'H13: no to_dict entry for the mapping-capable fields {sorted(mfields)}')
